@@ -21,6 +21,10 @@ TRUSTED = [
     "the kernel, not logical axioms",
     "the comparison operators / bounds of calc_omen_keyspace and _rec_calc_keyspace are re-extracted from the source on "
     "every run (harness/consts/omen_level.py, fail closed) and pinned by side-condition lemmas in Props/C18.v",
+    "harness/translate_omen_level.py: fail-closed ast translator of _rec_calc_keyspace and calc_omen_keyspace into "
+    "gen/OmenKeyspace_gen.v (accepted subset and the representation of Python values in its header: ints as Z, the trainer "
+    "object as the model's record plus the nested keyspace_cache dicts threaded explicitly, collections.Counter as an "
+    "association list, fuel for the recursion; print is dropped), and the runtime OmenRt.v it targets",
 ]
 ASSUMES = [
     "wf_ttab, closed, levels_le 10 (trainer table invariants, checked on every generated table)",
@@ -180,6 +184,7 @@ def run(ctx):
             "levels_with_duplicates": 0, "unlisted_levels_with_strings": 0, "guesser_not_loaded": 0,
             "dominant_len_eq_ngram": 0, "single_length": 0, "length_cost_zero": 0, "keyspace_hist": {}}
     seen, nontrivial = set(), 0
+    missing_consts = set()
     kinds = ["len_eq_ngram", "single_len", "big", "mixed", "long", "dup_heavy", "sparse_alphabet", "nonascii"]
     for i in range(n):
         cfg = ol.gen_training(ctx.rng, kinds[i % len(kinds)] if i < 3 * len(kinds) else None)
@@ -219,9 +224,8 @@ def run(ctx):
             cases.append(coq_case(T, consts))
             case_cfg.append(cfg)
         except KeyError as e:
-            # a constant the model needs could not be extracted from the changed source: the correspondence cannot be
-            # stated (reported as broken below), the direct oracle above still judges the implementation
-            case_errors.add("constant %s not extracted from the source (see the gen obligation)" % e)
+            # a constant of a failed extractor plugin is missing: no correspondence case, the oracle still ran
+            missing_consts.add(str(e))
 
     per = 5
     shards = []
@@ -235,7 +239,11 @@ def run(ctx):
         shards.append(("s%04d" % (s // per), "\n".join(src)))
     codes = {1: "trainer table invariants", 2: "calc_omen_keyspace (default bounds)", 3: "calc_omen_keyspace, small cut-off, warm cache",
              4: "calc_omen_keyspace, small cut-off, cold cache", 5: "pcfg_omen_prob.txt"}
-    corr = [("cases-could-be-stated", False, "; ".join(sorted(case_errors)))] if case_errors else []
+    import omen_gen_tie
+    corr = [omen_gen_tie.status("omen-keyspace:translator-tie", "gen/OmenKeyspace_gen.v", "theories/OmenKeyspaceGenProofs.v")]
+    if missing_consts:
+        corr.append(("omen-keyspace:constants", False, "constants missing from gen/Consts_gen.v (extractor plugin failed): %s; "
+                     "no correspondence case could be written" % sorted(missing_consts)))
     for (name, idx, log), s in zip(common.run_case_shards("C18", shards), range(0, len(cases), per)):
         if idx is None:
             corr.append(("omen-keyspace:" + name, False, log[-1200:]))
